@@ -361,7 +361,8 @@ def rule_g(ctx, cr):
     n = 0
     for p, f in sorted(cr.fns.items()):
         if not (p.startswith("mach::function::") or p.startswith("mach::runtime::")
-                or p.startswith("<mach::stack::") or p.startswith("mach::var::")):
+                or p.startswith("<mach::stack::") or p.startswith("mach::var::")
+                or re.match(r"^<(u8|u16|u32|u64|usize) as std::convert::TryFrom<mach::val::Val>>", p)):
             continue
         k = 0
         for b, i, st in f.assigns():
@@ -383,11 +384,17 @@ def rule_g(ctx, cr):
             for op, l, r, truth in f.cmp_conds_at(b):
                 if src is None or not f.same_origin(l, src):
                     continue
-                zero = f.describe(r) in ("const:0", "const:1")
-                if not zero:
+                rd = f.describe(r)
+                if rd not in ("const:0", "const:1", "const:-1"):
                     continue
-                if not neg and ((op == "Ge" and truth) or (op == "Lt" and not truth)
-                                or (op == "Gt" and truth) or (op == "Le" and not truth)):
+                # the test must admit 0 and exclude every negative value
+                admits0 = {("Ge", "const:0", True), ("Lt", "const:0", False), ("Gt", "const:-1", True),
+                           ("Le", "const:-1", False)}
+                positive = {("Gt", "const:0", True), ("Le", "const:0", False), ("Ge", "const:1", True),
+                            ("Lt", "const:1", False)}
+                conv = p.startswith("<")          # a conversion must accept 0; a use site may
+                if not neg and ((op, rd, truth) in admits0 or
+                                (not conv and (op, rd, truth) in positive)):
                     ok, why = True, "under a sign test"
                 if neg and ((op == "Lt" and truth) or (op == "Ge" and not truth)):
                     ok, why = True, "negation of a value known to be negative"
